@@ -496,7 +496,7 @@ func c20GenOp0(r *rand.Rand, sc *c20Scenario, reg map[string]c20Dom, h int64) c2
 				}
 			}
 			if len(tops) > 0 {
-				name = []string{"a.", "b.", "c.a."}[r.Intn(3)] + tops[r.Intn(len(tops))]
+				name = []string{"a.", "b.", "c.a.", "api.", "pay.", "www."}[r.Intn(6)] + tops[r.Intn(len(tops))]
 			}
 		}
 		return c20Op{Kind: "create", Signer: signerFor(name), Benef: benef(), Name: name, Uri: uri(), Amount: blocksPrice(sc.Base)}
@@ -515,10 +515,43 @@ func c20GenOp0(r *rand.Rand, sc *c20Scenario, reg map[string]c20Dom, h int64) c2
 		return c20Op{Kind: "purchase", Signer: r.Intn(c20NActors), Benef: benef(), Name: name, Amount: offer}
 	case w < 80:
 		pickExisting()
+		if r.Intn(2) == 0 {
+			// a sub-name: it must be alive exactly as long as its parent
+			subs := []string{}
+			for _, n := range existing {
+				if strings.Count(n, ".") >= 2 {
+					subs = append(subs, n)
+				}
+			}
+			if len(subs) > 0 {
+				name = subs[r.Intn(len(subs))]
+			}
+		}
 		a := c20Mul("1000000000000000", int64(r.Intn(50)))
 		return c20Op{Kind: "send", Signer: r.Intn(c20NActors), Benef: -1, Name: name, Amount: a}
 	case w < 91:
 		pickExisting()
+		// prefer a parent with several sub-names (each must follow the renewal)
+		if r.Intn(2) == 0 {
+			best, cnt := "", 1
+			for _, n := range existing {
+				if strings.Count(n, ".") != 1 {
+					continue
+				}
+				c := 0
+				for _, m := range existing {
+					if strings.HasSuffix(m, "."+n) {
+						c++
+					}
+				}
+				if c > cnt {
+					best, cnt = n, c
+				}
+			}
+			if best != "" {
+				name = best
+			}
+		}
 		return c20Op{Kind: "renew", Signer: signerFor(name), Benef: -1, Name: name, Amount: blocksPrice("0")}
 	default:
 		pickExisting()
@@ -617,6 +650,27 @@ func c20Directed() []c20Scenario {
 		// D2: block count beyond int64 (refused since /repo bd3d183)
 		{Label: "expiry_blocks_ge_2p63", PerBlock: "1", Base: "1", Blocks: [][]c20Op{
 			{cr(0, "n.ol", olt(10)), cr(1, "m.ol", olt(9))},
+			{},
+		}},
+		// D8: a sub-name expires with its parent: two parents with 3 and 2 committed sub-names each are
+		// renewed by their owners; past the OLD expiry height every sub-name still receives sends
+		{Label: "renew_extends_every_subname", PerBlock: pb, Base: base, Blocks: [][]c20Op{
+			{cr(0, "shop.ol", olt(9)), cr(1, "store.ol", olt(9))},
+			{cr(0, "www.shop.ol", olt(6)), cr(1, "b.store.ol", olt(6)), cr(0, "api.shop.ol", olt(6)), cr(1, "a.store.ol", olt(6)), cr(0, "pay.shop.ol", olt(6)), cr(0, "v2.api.shop.ol", olt(6))},
+			{{Kind: "renew", Signer: 0, Benef: -1, Name: "shop.ol", Amount: olt(10)}},
+			{{Kind: "renew", Signer: 1, Benef: -1, Name: "store.ol", Amount: olt(12)}, {Kind: "renew", Signer: 2, Benef: -1, Name: "shop.ol", Amount: olt(3)}},
+			{}, {}, {}, {},
+			{{Kind: "send", Signer: 4, Benef: -1, Name: "api.shop.ol", Amount: olt(1)}, {Kind: "send", Signer: 4, Benef: -1, Name: "pay.shop.ol", Amount: olt(1)},
+				{Kind: "send", Signer: 4, Benef: -1, Name: "www.shop.ol", Amount: olt(1)}, {Kind: "send", Signer: 4, Benef: -1, Name: "v2.api.shop.ol", Amount: olt(1)},
+				{Kind: "send", Signer: 4, Benef: -1, Name: "a.store.ol", Amount: olt(1)}, {Kind: "send", Signer: 4, Benef: -1, Name: "b.store.ol", Amount: olt(1)}},
+			{{Kind: "renew", Signer: 0, Benef: -1, Name: "shop.ol", Amount: olt(2)}, {Kind: "update", Signer: 0, Benef: 0, Name: "shop.ol", Active: false, Uri: ""}},
+			{{Kind: "send", Signer: 4, Benef: -1, Name: "pay.shop.ol", Amount: olt(1)}},
+		}},
+		// D9: the known trigger region for renewals: a sub-name registered in the block of its parent's
+		// renewal is left behind with the old expiry (same cause as D0)
+		{Label: "uncommitted_sub_misses_renewal", PerBlock: pb, Base: base, Blocks: [][]c20Op{
+			{cr(0, "n.ol", olt(100))}, {cr(0, "b.n.ol", olt(6))},
+			{cr(0, "a.n.ol", olt(6)), {Kind: "renew", Signer: 0, Benef: -1, Name: "n.ol", Amount: olt(10)}},
 			{},
 		}},
 		// D4: a listing must not outlive an expired-name purchase: sell at P, expire, B buys the expired
